@@ -376,6 +376,11 @@ func genCase(t *rapid.T) Case {
 				case name == "empty":
 					pool = []string{"x", " ", "0"}
 				}
+				if name != "identityref" && name != "empty" && len(leaves[idx].Vals) > 0 {
+					// the module-qualified form is an alternative spelling of identities only: a valid value of any other type
+					// behind the name of the leaf's module is not a value of that type
+					pool = append(pool, w.mod[leaves[idx].Name]+":"+leaves[idx].Vals[0], w.mod[leaves[idx].Name]+":"+leaves[idx].Vals[0])
+				}
 			}
 			if len(pool) > 0 {
 				c.Mutation.Pos = idx
@@ -384,6 +389,23 @@ func genCase(t *rapid.T) Case {
 		}
 	}
 	return c
+}
+
+// identitySpace is the part of a value space that consists of identities (an identityref, or the identityref members of a union).
+func identitySpace(sp *vt.Space) *vt.Space {
+	switch sp.Kind {
+	case "identityref":
+		return sp
+	case "union":
+		out := &vt.Space{Kind: "union"}
+		for _, m := range sp.Members {
+			if is := identitySpace(m); is.Kind != "union" || len(is.Members) > 0 {
+				out.Members = append(out.Members, is)
+			}
+		}
+		return out
+	}
+	return &vt.Space{Kind: "union"}
 }
 
 // ---- comparison ------------------------------------------------------------------------------
@@ -881,7 +903,7 @@ func checkCase(c Case) fw.Outcome {
 			if ts := oi.types[l.Name]; ts != nil {
 				if sp, ok := sg.SpaceOf(c.Mods, oi.leafMod[l.Name], ts, oi.leafMod[l.Name]); ok && !sp.Contains(m.Arg) {
 					own := oi.leafMod[l.Name].Name + ":"
-					if !(strings.HasPrefix(m.Arg, own) && sp.Contains(strings.TrimPrefix(m.Arg, own))) {
+					if !(strings.HasPrefix(m.Arg, own) && identitySpace(sp).Contains(strings.TrimPrefix(m.Arg, own))) {
 						// plain JSON numbers, booleans and null are written raw: the bytes then do not carry the value as given
 						raw := sp.Kind == "int" || sp.Kind == "uint" || sp.Kind == "boolean" || sp.Kind == "empty"
 						if m.Enc == 2 || !raw {
